@@ -16,13 +16,12 @@ def register(S):
     S.contract(C + "RefCountingColl.__init__", params={"self": "obj:RefCountingColl"},
                ensures={"empty": ("dict_empty(self._dict) and is_new(self._dict)", P)}, raises={},
                modifies=["self._dict", "self._lock"])
-    S.declare_fields("Connection", _HANDLERS="any", _channel="any", _recv_event="obj:Condition", _netref_classes_cache="dict",
-                     _remote_root="val", _local_root="val", _closed="bool", _recvlock="obj:Lock", _sendlock="obj:Lock",
-                     _proxy_cache="obj:WeakValueDict", _send_queue="vlist")
+    # (the fields of Connection are declared by the contracts of the functions that use them; only what is new here:)
+    S.declare_fields("Connection", _send_queue="vlist")
     OWN = ["self._local_objects", "self._local_objects._dict", "self._proxy_cache", "self._proxy_cache._dict", "self._request_callbacks",
            "self._netref_classes_cache", "self._send_queue", "self._sendlock", "self._recvlock", "self._recv_event", "self._seqcounter",
            "self._config"]
-    S.contract(F + "__init__", params={"self": "obj:Connection", "root": "val", "channel": "val", "config": "dict"},
+    S.contract(F + "__init__", params={"self": "obj:Connection", "root": "val", "channel": "obj:Channel", "config": "dict"},
                abstract_calls={"self._request_handlers": "handler_table_of", "next": "next_connection_id"},
                ensures={
                    # the per-connection state is newly created by this very call: no other connection can hold a reference to it
@@ -30,7 +29,7 @@ def register(S):
                    "tables_start_empty": ("dict_empty(self._local_objects._dict) and dict_empty(self._proxy_cache._dict) and "
                                           "dict_empty(self._request_callbacks) and dict_empty(self._netref_classes_cache) and "
                                           "isnil(self._send_queue.items)", P),
-                   "serves_the_given_root_over_the_given_channel": ("same(self._local_root, root) and same(self._channel, channel) and "
+                   "serves_the_given_root_over_the_given_channel": ("same(self._local_root, root) and self._channel is channel and "
                                                                     "isnone(self._remote_root) and not self._closed", P),
                    "locks_free_and_numbers_from_zero": ("not self._sendlock.held and not self._recvlock.held and self._seqcounter.nxt == 0", P),
                    "the_callers_config_wins": ("config_overrides(self._config, config)", P)},
